@@ -13,7 +13,22 @@ import (
 // plain types `*v | T | null`). In every spelling the default mark sits on the disjunction.
 var cueNullBranchStyle = "first"
 
+// cueSpellStyle switches between equivalent spellings of a scalar (same documents accepted by CUE, and
+// cog reads every one of them): "canonical" (default: `time.Time`, `int64`, `uint64`, `float64`, type first:
+// `int32 & >=1`), "alt" (always the other spelling: `string & time.Time`, `int`, `uint`, `number`,
+// constraints first: `>=1 & <=5 & int32`, `strings.MinRunes(1) & string`) or "mixed" (chosen per node by a
+// hash of the term and the node number). cog may infer another width from the alternative spelling (CUE folds
+// `>=1 & <=5 & int32` into a plain bounded int); every document of the term stays valid.
+var cueSpellStyle = "canonical"
+
 type cueRenderer struct {
+	seed  uint32
+	node  uint32
+	style map[string]int
+	// canonicalOnly: inside a member that carries a default (`>=1 & <=5 & uint | *3` is refused by cog: "could
+	// not infer number type"; the default mark needs the type-first spelling)
+	canonicalOnly bool
+
 	nullableCtx bool
 	d           *Defs
 	out         *renderOut
@@ -23,7 +38,10 @@ type cueRenderer struct {
 
 func renderCUE(d *Defs, pkg string) renderOut {
 	out := renderOut{}
-	r := &cueRenderer{d: d, out: &out}
+	r := &cueRenderer{d: d, out: &out, style: map[string]int{}}
+	if cueSpellStyle == "mixed" {
+		r.seed = fnv32(d.sexp())
+	}
 	var body strings.Builder
 	for _, it := range d.Items {
 		expr, attr := r.tyAttr(it.Ty, "", true)
@@ -43,8 +61,41 @@ func renderCUE(d *Defs, pkg string) renderOut {
 	}
 	b.WriteString(body.String())
 	out.Text = b.String()
+	for _, k := range []string{"spell.dateTimeConj", "spell.int", "spell.uint", "spell.number", "spell.constraintsFirst"} {
+		if n := r.style[k]; n > 0 {
+			out.Style = append(out.Style, k+" x"+strconv.Itoa(n))
+		}
+	}
 	out.finish()
 	return out
+}
+
+// altSpelling decides, per node that has one, whether the alternative spelling is used.
+func (r *cueRenderer) altSpelling(tag string) bool {
+	r.node++
+	use := false
+	if r.canonicalOnly {
+		return false
+	}
+	switch cueSpellStyle {
+	case "alt":
+		use = true
+	case "mixed":
+		h := (r.seed ^ (r.node * 2654435761)) * 2246822519
+		use = (h>>16)%2 == 1
+	}
+	if use {
+		r.style[tag]++
+	}
+	return use
+}
+
+// cueConj joins a type and its constraints, type first or constraints first.
+func cueConj(ty string, cons []string, consFirst bool) string {
+	if consFirst {
+		return strings.Join(append(append([]string{}, cons...), ty), " & ")
+	}
+	return strings.Join(append([]string{ty}, cons...), " & ")
 }
 
 func cueIdent(s string) bool {
@@ -131,18 +182,21 @@ func (r *cueRenderer) ty(s *Src, indent string) string {
 	case SString:
 		if s.DateTime {
 			r.useTime = true
+			if r.altSpelling("spell.dateTimeConj") {
+				return "string & time.Time"
+			}
 			return "time.Time"
 		}
-		e := "string"
+		cons := []string{}
 		if s.MinLen != nil {
 			r.useStrings = true
-			e += " & strings.MinRunes(" + strconv.FormatInt(*s.MinLen, 10) + ")"
+			cons = append(cons, "strings.MinRunes("+strconv.FormatInt(*s.MinLen, 10)+")")
 		}
 		if s.MaxLen != nil {
 			r.useStrings = true
-			e += " & strings.MaxRunes(" + strconv.FormatInt(*s.MaxLen, 10) + ")"
+			cons = append(cons, "strings.MaxRunes("+strconv.FormatInt(*s.MaxLen, 10)+")")
 		}
-		return e
+		return cueConj("string", cons, len(cons) > 0 && r.altSpelling("spell.constraintsFirst"))
 	case SConst:
 		return s.Const.json()
 	case SInt:
@@ -150,13 +204,23 @@ func (r *cueRenderer) ty(s *Src, indent string) string {
 		if !s.Signed {
 			e = "u" + e
 		}
+		if s.Width == 64 {
+			// `int` / `uint`: the unsized spellings cog maps to int64 / (CUE prints `uint` as `int & >=0`) a
+			// bounded int64; documents beyond 64 bits are not drawn
+			if s.Signed && r.altSpelling("spell.int") {
+				e = "int"
+			} else if !s.Signed && r.altSpelling("spell.uint") {
+				e = "uint"
+			}
+		}
+		cons := []string{}
 		if s.Lo != nil {
-			e += " & >=" + strconv.FormatInt(*s.Lo, 10)
+			cons = append(cons, ">="+strconv.FormatInt(*s.Lo, 10))
 		}
 		if s.Hi != nil {
-			e += " & <=" + strconv.FormatInt(*s.Hi, 10)
+			cons = append(cons, "<="+strconv.FormatInt(*s.Hi, 10))
 		}
-		return e
+		return cueConj(e, cons, len(cons) > 0 && r.altSpelling("spell.constraintsFirst"))
 	case SNum:
 		e := "float" + strconv.Itoa(s.Width)
 		if s.FLo != nil && s.FHi != nil {
@@ -164,6 +228,10 @@ func (r *cueRenderer) ty(s *Src, indent string) string {
 			// type": CUE folds the type's own bounds away); the only two-sided spelling it reads is
 			// `float & ...`, which does not accept integer-valued JSON numbers.
 			r.out.unsupported("num.twoBounds")
+		}
+		if s.Width == 64 && s.FLo == nil && s.FHi == nil && r.altSpelling("spell.number") {
+			// `number` is read as float64; with a bound cog cannot infer the type ("could not infer number type")
+			return "number"
 		}
 		if s.FLo != nil {
 			e += " & >=" + cueFloat(*s.FLo)
@@ -240,7 +308,10 @@ func (r *cueRenderer) field(f Field, indent string) string {
 		label += "?"
 	}
 	r.nullableCtx = f.Nullable
+	savedCanon := r.canonicalOnly
+	r.canonicalOnly = r.canonicalOnly || f.Default != nil
 	expr, attr := r.tyAttr(f.Ty, indent, !f.Nullable)
+	r.canonicalOnly = savedCanon
 	r.nullableCtx = false
 	if f.Default != nil {
 		dv := cueValue(*f.Default)
